@@ -36,7 +36,7 @@ from ..engine.report import Report
 from ..engine.universe import AnalysisError, ClassInfo, FuncInfo, ancestors, own_nodes
 from .walkmodel import WalkModel, assigned_value, reaching_defs
 
-ORDER_PRESERVING = ("sorted", "list", "tuple")
+ORDER_PRESERVING = ("sorted", "list", "tuple", "iter")
 
 
 def run(ctx: Ctx, rep: Report) -> None:
@@ -45,7 +45,7 @@ def run(ctx: Ctx, rep: Report) -> None:
     rep.rule("C01-R3", "every fetched batch is regrouped, filtered and yielded; the loop continues while a root is unfinished", floor=5)
     rep.rule("C01-R4", "positional regrouping: stride, offsets and keys agree; remap to user roots by containment", floor=4)
     rep.rule("C01-R5", "OID lists given to a truncating fetcher are ascending", floor=1)
-    rep.rule("C01-R6", "a root continues from its last received OID and only while that OID is inside the root", floor=3)
+    rep.rule("C01-R6", "a root continues from its last received OID and only while that OID is inside the root", floor=2)
     rep.rule("C01-R7", "endOfMibView markers are never delivered as instances", floor=2)
     rep.rule("C01-R8", "order within a root is preserved between fetch and yield", floor=1)
     rep.rule("C01-R9", "an exception a fetcher raises itself ends the walk the same way at every fetch site (first request and continuation requests)", floor=2)
@@ -238,7 +238,18 @@ def check_filter(ctx: Ctx, rep: Report, wm: WalkModel, r1: str = "C01-R1", r2: s
     rep.check(seen_param is not None, r2, g.site(y), f"`yield {var}` is reached only when {var}.oid is not in the seen-set parameter", f"facts: {sorted(facts)}", key=f"{g.key}|seen-guard")
     added = False
     if seen_param is not None:
-        adds = [n for n in own_nodes(g.node) if isinstance(n, ast.Call) and isinstance(n.func, ast.Attribute) and n.func.attr == "add" and norm(n.func.value) == seen_param and len(n.args) == 1 and norm(n.args[0]) == f"{var}.oid"]
+        def is_add(n: ast.AST) -> bool:
+            """<seen>.add(<var>.oid), also through a local alias of the bound method / of the OID."""
+            if not (isinstance(n, ast.Call) and len(n.args) == 1 and not n.keywords):
+                return False
+            func = n.func
+            if isinstance(func, ast.Name):
+                func = defs.single(func.id) or func
+            if not (isinstance(func, ast.Attribute) and func.attr == "add" and norm(func.value) == seen_param):
+                return False
+            return norm(defs.expand(n.args[0], stop=[var])) == f"{var}.oid"
+
+        adds = [n for n in own_nodes(g.node) if is_add(n)]
         for a in adds:
             anode = cfg_node_of(cfg, a)
             ast_stmt = stmt_of(a)
@@ -410,17 +421,29 @@ def check_loop(ctx: Ctx, rep: Report, wm: WalkModel, r3: str = "C01-R3", r6: str
         ok = False
         if isinstance(exp, (ast.ListComp,)) and len(exp.generators) == 1 and not exp.generators[0].ifs:
             gen = exp.generators[0]
+            row_cls = ctx.u.cls("puresnmp.util:WalkRow") if "puresnmp.util:WalkRow" in ctx.u.classes else None
+            fields = dataclass_fields(row_cls) if row_cls else ["value", "unfinished"]
             if isinstance(gen.iter, ast.Name) and gen.iter.id == uname and isinstance(gen.target, ast.Name):
                 t = gen.target.id
                 # item = (root, WalkRow): the continuation OID is the row's value's oid
-                row_cls = ctx.u.cls("puresnmp.util:WalkRow") if "puresnmp.util:WalkRow" in ctx.u.classes else None
-                fields = dataclass_fields(row_cls) if row_cls else ["value", "unfinished"]
                 ok = norm(exp.elt) == f"{t}[1].{fields[0]}.oid"
+            elif isinstance(gen.iter, ast.Name) and gen.iter.id == uname and isinstance(gen.target, (ast.Tuple, ast.List)) and len(gen.target.elts) == 2 and isinstance(gen.target.elts[1], ast.Name):
+                # the same with the item unpacked: for _, row in unfinished
+                ok = norm(exp.elt) == f"{gen.target.elts[1].id}.{fields[0]}.oid"
         rep.check(ok, r6, w.site(fc), "the next request asks, for every unfinished root and in the same order, for the OID last received for it", f"request list = {norm(exp) if exp is not None else None}", key=f"{w.key}|continuation-request")
 
 
 # ---------------------------------------------------------------- R4
 def check_group(ctx: Ctx, rep: Report, wm: WalkModel) -> None:
+    from .walkeval import eval_group
+
+    if eval_group(ctx, rep, wm.group, "C01-R4"):
+        check_group_call_sites(ctx, rep, wm)
+        return
+    check_group_structurally(ctx, rep, wm)
+
+
+def check_group_structurally(ctx: Ctx, rep: Report, wm: WalkModel) -> None:
     g = wm.group
     defs = ctx.defs(g)
     site = g.site()
@@ -503,7 +526,14 @@ def check_group(ctx: Ctx, rep: Report, wm: WalkModel) -> None:
                 store_ok = val_var is not None and norm(n.value) == val_var
     rep.check(refuse, "C01-R4", site, "an OID contained in more than one user root is refused (raises)", key=f"{g.key}|multi-container")
     rep.check(store_ok, "C01-R4", site, "the slice is stored unchanged under the single containing user root", key=f"{g.key}|remap-store")
-    # call sites in the walk: first call without user roots uses the same list as the fetch; later calls pass the roots
+    check_group_call_sites(ctx, rep, wm)
+
+
+def check_group_call_sites(ctx: Ctx, rep: Report, wm: WalkModel) -> None:
+    """Call sites in the walk: every batch is regrouped by exactly the OID list it was requested with."""
+    g = wm.group
+    vb_param, eff_param = g.params[0], g.params[1]
+    user_param = g.params[2] if len(g.params) > 2 else None
     w = wm.walk
     wcfg = ctx.cfg(w)
     for gc in wm.group_calls:
@@ -533,6 +563,11 @@ def check_group(ctx: Ctx, rep: Report, wm: WalkModel) -> None:
 # ---------------------------------------------------------------- R5
 def sorted_summary(ctx: Ctx, fn: FuncInfo) -> bool:
     """The function returns a list derived, order preserving, from sorted(...)."""
+    from .walkeval import returns_sorted_by_evaluation
+
+    evaluated = returns_sorted_by_evaluation(ctx, fn) if fn.params and len(fn.params) == 1 else None
+    if evaluated is not None:
+        return evaluated
     defs = ctx.defs(fn)
     rets = [n for n in own_nodes(fn.node) if isinstance(n, ast.Return) and n.value is not None]
     if not rets:
@@ -616,6 +651,14 @@ def check_sorted(ctx: Ctx, rep: Report, wm: WalkModel, rule: str) -> None:
 
 # ---------------------------------------------------------------- R6
 def check_unfinished(ctx: Ctx, rep: Report, wm: WalkModel) -> None:
+    from .walkeval import eval_unfinished
+
+    if eval_unfinished(ctx, rep, wm.unfinished, "C01-R5", "C01-R6"):
+        return
+    check_unfinished_structurally(ctx, rep, wm)
+
+
+def check_unfinished_structurally(ctx: Ctx, rep: Report, wm: WalkModel) -> None:
     u = wm.unfinished
     defs = ctx.defs(u)
     site = u.site()
